@@ -14,6 +14,7 @@ import (
 	"strings"
 	"sync"
 	"sync/atomic"
+	"time"
 
 	sgbucket "github.com/couchbase/sg-bucket"
 	"github.com/couchbase/sync_gateway/base"
@@ -28,6 +29,7 @@ const (
 	AltTimeoutLost    = "timeout-lost"    // not applied, caller sees a timeout
 	AltCrashBefore    = "crash-before"    // node dies before the op is applied
 	AltCrashAfter     = "crash-after"     // op is applied, node dies before it sees the answer
+	AltStall          = "stall"           // the op is held for Node.StallFor of simulated time, then applied normally (slow storage)
 	AltFeedDedup      = "feed-dedup"      // a queued feed event superseded by a later one of the same key is dropped
 	AltFeedRedeliver  = "feed-redeliver"  // the last delivered event of a vbucket is delivered again
 )
@@ -58,7 +60,8 @@ type Node struct {
 	// knobs
 	NumVB       int // simulated vbuckets for feed ordering (power of two)
 	FeedWorkers int
-	ReadFaults  bool // offer fault alternatives on reads too
+	ReadFaults  bool          // offer fault alternatives on reads too
+	StallFor    time.Duration // how long a "stall" fault holds an operation (default 8s)
 	NoFaultKeys func(key string) bool
 }
 
@@ -240,9 +243,9 @@ func (ds *DataStore) pre(op, key string, kind opKind) (alt string, idx int, err 
 				pp.Alts = []string{AltErr, AltCrashBefore}
 			}
 		case opWrite:
-			pp.Alts = []string{AltErr, AltTimeoutApplied, AltTimeoutLost, AltCrashBefore, AltCrashAfter}
+			pp.Alts = []string{AltErr, AltTimeoutApplied, AltTimeoutLost, AltCrashBefore, AltCrashAfter, AltStall}
 		case opCasWrite:
-			pp.Alts = []string{AltErr, AltCasMiss, AltTimeoutApplied, AltTimeoutLost, AltCrashBefore, AltCrashAfter}
+			pp.Alts = []string{AltErr, AltCasMiss, AltTimeoutApplied, AltTimeoutLost, AltCrashBefore, AltCrashAfter, AltStall}
 		}
 	}
 	alt = s.Park(pp)
@@ -260,6 +263,13 @@ func (ds *DataStore) pre(op, key string, kind opKind) (alt string, idx int, err 
 	case AltCrashBefore:
 		n.Crash()
 		err = ErrNodeDown
+	case AltStall:
+		d := n.StallFor
+		if d <= 0 {
+			d = 8 * time.Second
+		}
+		time.Sleep(d)
+		alt = verifsim.Go
 	}
 	return alt, idx, err
 }
